@@ -68,6 +68,11 @@ def run(ctx):
         verdicts = vlib.read_ndjson(bad) if os.path.exists(bad) else []
         reported = {}
         confirmed = {}
+        # time verdicts are confirmed in the order of their excess over the bound (the confirmations are limited)
+        def _excess(v):
+            r = rows[v["l"] - 1]
+            return -(r["aftercpu"] / float(max(100000, r["fullcpu"] // 4))) if "time" in v["why"] else 0.0
+        verdicts.sort(key=_excess)
         for v in verdicts:
             r = rows[v["l"] - 1]
             for why in sorted(v["why"]):
@@ -75,7 +80,7 @@ def run(ctx):
                     # timing is noisy: re-measure the same schedule three times, all must exceed the bound
                     ck = (r["doc"], r["mode"], r["phase"], r["last"])
                     if ck not in confirmed:
-                        if len(confirmed) >= 4:
+                        if len(confirmed) >= 6:
                             ev.add("time_outliers_not_confirmed", 1)
                             continue
                         crec = os.path.join(d, "confirm.ndjson")
